@@ -24,18 +24,18 @@ META = {
                  'WriteTo script and callers + differential stress of the real builder API under the race detector (N builders x M callers, shared pages), '
                  'strace of the mprotect script, source lock-skeleton comparison',
     'level': 'proof',
-    'level_text': 'Partial proof: for every schedule, every program over pairwise disjoint targets and every page layout, the model has mutual exclusion of '
+    'level_text': 'Partial proof: from every quiet state (steady mocks already in place), for every schedule, every program over pairwise disjoint targets and every page layout, the model has mutual exclusion of '
                   'patchesLock and memoryAccessLock (so the three-phase mprotect/copy/mprotect script of one thread never interleaves with another, even on a '
                   'shared page), every listed shared access is inside its lock, every page keeps x in every intermediate state, every call of a steadily '
                   'mocked function returns the mocked result (incl. callbacks calling the origin placeholder), other threads never change a thread\'s own '
-                  'targets, each thread\'s targets and control state evolve exactly as in a run in which it alone is scheduled (isolation by solo simulation), and '
+                  'targets, each thread\'s targets, control state and the results of its own calls evolve exactly as in a run in which it alone is scheduled (isolation by solo simulation), the steady builder\'s targets are restored by its final reset (three-phase theorem), and '
                   'for every program of the generator\'s class (any builder operation sequence ending in reset; callers) all mocked functions are pristine and both locks free '
                   'at quiescence in every interleaving (quiescent_restored_builders, sequential part proved by a micro-step invariant). '
                   'The model is tied to the code by differential runs of the real API under -race.',
     'level_note': 'Partial because: (1) data races on fields the model does not list are only covered by the Go race detector during the stress runs (a test); '
                   '(2) torn instruction fetch during the 13-byte entry write and CPU cross-modifying-code behaviour cannot be exhibited by the model - only '
                   'crash-free stress (a test); (3) the 13-byte copy is one model step: Props states what that abstracts (CopyIsAtomic is refuted at byte level by copy_is_not_atomic_at_byte_level; '
-                  'write_excludes_calls proves no modelled thread calls a location while any thread is inside its WriteTo script). internal/patch exports Unpatch/UnpatchInstanceMethod/UnpatchAll which '
+                  'write_excludes_calls proves no modelled thread calls a location while any thread is inside its WriteTo script). Generic functions are not exercised (same-GC-shape sharing is known finding F28-c02-gcshape; under -race GetInnerFunc of goom resolves racefuncenter). internal/patch exports Unpatch/UnpatchInstanceMethod/UnpatchAll which '
                   'touch the patch table WITHOUT patchesLock; they are unreachable from the builder API (verified by grep on every run) and therefore outside '
                   'the property. Trusted: Lean kernel, probe + canonicalisation, kernel mprotect semantics.',
 }
@@ -437,7 +437,7 @@ def run(tier):
     diffs = C.diff_streams(ops, mains, model) if model is not None else []
     wexe, _ = C.build_driver()
     corr = []
-    st_lines = [ops[i] for i in ([0, len(corpus()) - 1, len(corpus()) + 1, len(corpus()) + 2][: 4 if tier == 'quick' else 4]) if i < n_real]
+    st_lines = [ops[i] for i in ([0, len(corpus()) - 1, len(corpus()) + 1, len(corpus()) + 2][: 3 if tier == 'quick' else 4]) if i < n_real]
     st_lines += [ops[i] for i in range(len(corpus()) + 3, min(n_real, len(corpus()) + 3 + (0 if tier == 'quick' else 40)))]
     st_results, st, wmodel = [], None, None
     for st_line in st_lines:
@@ -467,7 +467,7 @@ def run(tier):
     # sequential schedule (theorem C11.isolation, executed) — and therefore the implementation's
     shuf_n = 0
     if wexe and model is not None:
-        pick = list(range(min(n_real, 12 if tier == 'quick' else 200)))
+        pick = list(range(min(n_real, 10 if tier == 'quick' else 200)))
         sh_ops = [f'c11.shuffle {C.seed() * 7 + j} ' + ops[i].split(' ', 1)[1] for i in pick for j in (0, 1)]
         shf = os.path.join(C.BUILD, 'c11.shuffle.ops')
         open(shf, 'w').write('\n'.join(sh_ops) + '\n')
